@@ -43,7 +43,8 @@ def build_hds(states, slots, spc, version=2, size_sectors=None, layer=1, skew=0,
     assert all(p * cl + skew * 512 >= hdr_end for p in used), "data slot overlaps header/BAT"
     if data_off is None:
         data_off = (hdr_end + 511) // 512
-    size_field = size_sectors if version == 2 else (size_sectors & 0xFFFFFFFF)
+    # version 1 keeps the sector count in 32 bits; the dword behind it is unused by the format and not necessarily zero
+    size_field = size_sectors if version == 2 else ((size_sectors & 0xFFFFFFFF) | (0xA5C3F00D << 32))
     hdr = struct.pack(HDR, SIG[version], 2, 16, max(1, size_sectors // (16 * 32)), spc, bat_entries, size_field, 0,
                       data_off, 0, 0)
     img = Image("hds")
